@@ -13,14 +13,14 @@ LENS_QUICK = [(2, 3, 2, 2, 2, 3), (1, 2, 3, 2, 3, 2)]
 LENS_THOROUGH = LENS_QUICK + [(2, 2, 2, 2, 2, 2), (3, 1, 2, 1, 1, 3), (2, 3, 1, 3, 3, 1), (3, 2, 3, 1, 2, 2)]
 
 
-MODE = {"cases": ("Cases", "Emit", ["WellDefinedInv", "C14_ContribPartition"], "C"),
-        "equiv": ("Equiv", "EmitRel", ["C08_Equivariance"], "R"),
-        "short": ("Shorthand", "EmitPairs", ["C07_BothParse", "C07_SyntacticSame"], "P")}
+MODE = {"cases": ("Cases", "Emit", ["WellDefinedInv", "C14_ContribPartition"], "C", "Spec"),
+        "equiv": ("Equiv", "EmitRel", ["C08_Equivariance"], "R", "Spec"),
+        "short": ("Shorthand", "EmitPairs", ["C07_BothParse", "C07_SyntacticSame"], "P", "SpecShort")}
 
 
 def _run_one(args):
     fam, names, lens, maxdims, maxleaves, tag, timeout, mode = args
-    base, emit, invs, _ = MODE[mode]
+    base, emit, invs, _, specname = MODE[mode]
     d = common.workdir("corpus")
     mod = "MC_%s_%s" % (base, tag)
     with open(os.path.join(d, mod + ".tla"), "w") as f:
@@ -28,7 +28,7 @@ def _run_one(args):
             mod, ", ".join(common.tla_expr(list(l)) for l in lens), common.tla_expr(NAME_ORDER)))
     cfg = os.path.join(d, mod + ".cfg")
     with open(cfg, "w") as f:
-        f.write("\n".join(["SPECIFICATION Spec", "CONSTANTS", '  Family = "%s"' % fam, "  Names = %s" % common.tla_value(set(names)),
+        f.write("\n".join(["SPECIFICATION " + specname, "CONSTANTS", '  Family = "%s"' % fam, "  Names = %s" % common.tla_value(set(names)),
                            "  Lens <- MCLens", "  NameOrder <- MCOrder", "  MaxDims = %d" % maxdims, "  MaxLeaves = %d" % maxleaves, "  Shard = 0", "  NShards = 1",
                            "CONSTRAINT " + emit] + ["INVARIANT " + i for i in invs] + ["CHECK_DEADLOCK FALSE"]) + "\n")
     res = common.run_tlc(os.path.join(d, mod + ".tla"), cfg, workers=1, timeout=timeout)
